@@ -7,6 +7,25 @@ TB = ("Coq 8.16.1 kernel; axioms as printed by Print Assumptions (allow-list in 
       "tied to /repo only by that correspondence (DESIGN.md section 8)")
 
 CHECKS = {
+ "C06": dict(
+   text="PARTIAL. Machine-checked (all function-free terms whose complex terms have an atom functor, all substitutions, all "
+        "fuel): SOUNDNESS - a successful unification keeps every earlier binding verbatim and returns a substitution set under "
+        "which both terms denote the same term (`teq`: bindings followed, `$_` matching anything, floats by IEEE ==, lists "
+        "through their nodes with a tail variable standing for the rest) - and creates no binding cycle. Completeness and "
+        "generality are stated (unify_complete_statement), not yet proved; they are decided on every run against a reference "
+        "unifier with occurs check over the abstract list view: same success/failure, prior bindings kept, resolved values of "
+        "all variables equal to the reference mgu's up to renaming, on a sample (thorough: all) of the 119-term universe x 18 "
+        "priors, also in head/goal form; plus model-vs-implementation correspondence.", ref="7/C06",
+   technique="Coq proof of soundness + extension + acyclicity (Properties/C06.v) + reference-unifier oracle on the implementation + model-vs-implementation correspondence"),
+ "C07": dict(
+   text="PARTIAL. Machine-checked: the result of a successful unification makes A and B denote the same term in both orders "
+        "(the specification relation is symmetric); constants, constant/variable, list/variable and complex/variable pairs "
+        "commute as equations between the two orders. The full statement (A = B succeeds iff B = A does, same resolved "
+        "values up to renaming) needs completeness (C06_full) and is decided on every run by unifying every generated pair "
+        "in both orders on the implementation, as written and in head/goal form (fresh ids on one side; list patterns and "
+        "[] on either side), comparing success and the resolved values of all variables.", ref="7/C07",
+   technique="Coq proof of the symmetric fragments (Properties/C07.v) + both-orders relation on the implementation + model-vs-implementation correspondence"),
+
  "C18": dict(
    text="Machine-checked for EVERY input string (no bound on length) on the model of the parsers (after 5 repairs of panics "
         "and of exponential grouping time): parse_term, parse_arguments, parse_linked_list, parse_complex, parse_function, "
